@@ -40,6 +40,11 @@ pub struct Profile {
     pub p_setid: f64,
     pub p_stall: f64,
     pub p_wzero: f64,
+    /// how many times in a row the transport may answer "pending" (a write stall that outlasts several cancelled calls)
+    pub max_pend: u32,
+    /// a link that stays stalled while the application keeps cancelling and re-issuing its calls (a
+    /// `select(poll, tick)` loop): probability per call of entering such a stretch
+    pub p_stall_loop: f64,
     pub rm: Vec<u16>,
     pub maxpkt: Vec<u32>,
     pub maxqos: Vec<u8>,
@@ -86,6 +91,8 @@ impl Default for Profile {
             p_setid: 0.0,
             p_stall: 0.0,
             p_wzero: 0.0,
+            max_pend: 2,
+            p_stall_loop: 0.0,
             rm: vec![0, 0, 1, 2, 3, 8, 20],
             maxpkt: vec![0],
             maxqos: vec![2, 2, 2, 1, 0],
@@ -140,6 +147,7 @@ pub struct RandomDirector {
     benign: bool,
     last_pending: char,
     consecutive_pend: u32,
+    stall_loop_left: u32,
     req_n: u32,
     idle: u32,
     drain_polls: u32,
@@ -197,6 +205,7 @@ impl RandomDirector {
             benign: false,
             last_pending: ' ',
             consecutive_pend: 0,
+            stall_loop_left: 0,
             req_n: 0,
             idle: 0,
             drain_polls: 0,
@@ -696,11 +705,15 @@ impl Director for RandomDirector {
             self.idle = 0;
         }
         self.now_ms = _view.now_ms;
+        if !self.benign && self.stall_loop_left > 0 && self.cur_cancel_safe {
+            self.last_pending = 'w';
+            return IoDec::Pending;
+        }
         if !self.benign {
             if self.chance(self.p.p_fault) {
                 return IoDec::Err;
             }
-            if self.consecutive_pend < 2 && self.chance(self.p.p_pend) {
+            if self.consecutive_pend < self.p.max_pend && self.chance(self.p.p_pend) {
                 self.consecutive_pend += 1;
                 self.last_pending = 'w';
                 return IoDec::Pending;
@@ -743,7 +756,7 @@ impl Director for RandomDirector {
             if self.chance(self.p.p_fault) {
                 return if self.chance(0.5) { IoDec::Eof } else { IoDec::Err };
             }
-            if self.consecutive_pend < 2 && self.chance(self.p.p_pend) {
+            if self.consecutive_pend < self.p.max_pend && self.chance(self.p.p_pend) {
                 self.consecutive_pend += 1;
                 self.last_pending = 'r';
                 return IoDec::Pending;
@@ -762,7 +775,7 @@ impl Director for RandomDirector {
             if self.chance(self.p.p_fault) {
                 return IoDec::Err;
             }
-            if self.consecutive_pend < 2 && self.chance(self.p.p_pend) {
+            if self.consecutive_pend < self.p.max_pend && self.chance(self.p.p_pend) {
                 self.consecutive_pend += 1;
                 self.last_pending = 'f';
                 return IoDec::Pending;
@@ -809,6 +822,10 @@ impl Director for RandomDirector {
 
     fn pending(&mut self, view: &View) -> PendDec {
         let waiting_read = self.last_pending == 'r' && view.inbound_avail == 0;
+        if !self.benign && self.stall_loop_left > 0 && self.last_pending == 'w' && self.cur_cancel_safe {
+            self.stall_loop_left -= 1;
+            return PendDec::Cancel;
+        }
         if self.last_pending != 'r' || view.inbound_avail > 0 {
             // a stalled link: time passes while a packet is half-written
             if !self.benign && self.p.time && self.stalls < 3 && self.chance(self.p.p_stall) {
@@ -1091,6 +1108,9 @@ impl Director for RandomDirector {
             if let Some(pkt) = self.broker.outq.pop_front() {
                 return TopDec::Inject(pkt);
             }
+        }
+        if self.p.p_stall_loop > 0.0 && self.stall_loop_left == 0 && self.chance(self.p.p_stall_loop) {
+            self.stall_loop_left = self.rng.gen_range(9..15);
         }
         self.calls_left -= 1;
         let call = self.gen_call();
